@@ -287,6 +287,41 @@ fn registry() -> Vec<Case> {
             }
         }
     }
+    // constructors / accessors / const forms
+    for x in &ints {
+        let neg = x.sign() == NSign::Minus;
+        let xi = ref_to_i(x);
+        let t = |op: &str| format!("{}({})", op, hex(x));
+        { let a = xi.clone(); case!(v, "IBig accessors", t("as_sign_words/as_ubig/into_parts/is_one"), Expect::NoPanic, (a.as_sign_words().1.len(), a.as_ubig().is_some(), a.is_one(), a.clone().into_parts().1 == a.clone().unsigned_abs())); }
+        { let a = xi.clone(); case!(v, "IBig::is_multiple_of_const", t("is_multiple_of_const(7)"), Expect::NoPanic, a.is_multiple_of_const(7)); }
+        { let a = xi.clone(); case!(v, "IBig::is_multiple_of_const(0)", t("is_multiple_of_const(0)"), Expect::Must("zero-divisor"), a.is_multiple_of_const(0)); }
+        if !neg {
+            let xu = ref_to_u(x.magnitude());
+            { let a = xu.clone(); case!(v, "UBig accessors", t("as_words/as_ibig/from_words/is_one"), Expect::NoPanic, (UBig::from_words(a.as_words()) == a, a.as_ibig().is_one(), a.is_one())); }
+            { let a = xu.clone(); case!(v, "UBig::is_multiple_of_const", t("is_multiple_of_const(10)"), Expect::NoPanic, a.is_multiple_of_const(10)); }
+            { let a = xu.clone(); case!(v, "UBig::is_multiple_of_const(0)", t("is_multiple_of_const(0)"), Expect::Must("zero-divisor"), a.is_multiple_of_const(0)); }
+            if let Ok(w) = u64::try_from(x.clone()) {
+                case!(v, "UBig::from_word/from_dword", format!("from_word({})", w), Expect::NoPanic, (UBig::from_word(w as dashu_int::Word).bit_len_(), UBig::from_dword(w as dashu_int::DoubleWord).bit_len_(), IBig::from_parts_const(dashu_base::Sign::Negative, w as dashu_int::DoubleWord).bit_len_()));
+                case!(v, "ConstDivisor::from_word/from_dword", format!("from_word({})", w), if w == 0 { Expect::Must("zero-divisor") } else { Expect::NoPanic }, (ConstDivisor::from_word(w as dashu_int::Word).value(), ConstDivisor::from_dword(w as dashu_int::DoubleWord).value()));
+                if w != 0 {
+                    case!(v, "Reduced::dbl/modulus", format!("reduce(5) mod {}", w), Expect::NoPanic, { let r = ConstDivisor::from_dword(w as dashu_int::DoubleWord); let e = r.reduce(5u8); (e.clone().dbl().residue(), e.modulus()) });
+                    case!(v, "RBig/Relaxed::from_parts_const", format!("from_parts_const(+, 6, {})", w), Expect::NoPanic, (RBig::from_parts_const(dashu_base::Sign::Positive, 6, w as dashu_int::DoubleWord).into_parts(), Relaxed::from_parts_const(dashu_base::Sign::Negative, 6, w as dashu_int::DoubleWord).canonicalize().is_one()));
+                }
+            }
+        }
+    }
+    for &n in &[0usize, 1, 63, 64, 65, 127, 128, 129, 1000] {
+        case!(v, "UBig::ones", format!("ones({})", n), Expect::NoPanic, UBig::ones(n).count_ones() == n);
+    }
+    // formatting / parsing in every radix across the size classes of the formatter (one-word chunks,
+    // the 16-slot medium path, the recursive large path)
+    for n in (1usize..=20).chain([24, 31, 32, 33, 48, 64, 65]) {
+        for r in 2u32..=36 {
+            let a = UBig::from_words(&vec![dashu_int::Word::MAX; n * (64 / dashu_int::Word::BITS as usize)]);
+            case!(v, "UBig::in_radix(all radixes x lengths)", format!("in_radix(2^{}-1, {}) and back", 64 * n, r), Expect::NoPanic, { let t = a.in_radix(r).to_string(); (t.len(), UBig::from_str_radix(&t, r).map(|b| b == a), format!("{:#}", (-IBig::from(a.clone())).in_radix(r)).len()) });
+        }
+    }
+    case!(v, "RBig::from_parts_const(_, 0)", "from_parts_const(+, 1, 0)".into(), Expect::Must("zero-divisor"), RBig::from_parts_const(dashu_base::Sign::Positive, 1, 0));
     // elements of different rings must not mix
     {
         case!(v, "Reduced: different rings", "reduce(5) mod 7 + reduce(5) mod 11".into(), Expect::Must("different-rings"), { let (r1, r2) = (ConstDivisor::new(UBig::from(7u8)), ConstDivisor::new(UBig::from(11u8))); (r1.reduce(5) + r2.reduce(5)).residue() });
@@ -301,6 +336,10 @@ fn registry() -> Vec<Case> {
             case!(v, "IBig::gcd/gcd_ext", format!("gcd({}, {})", hex(x), hex(y)), if both0 { Expect::Must("gcd-of-zeros") } else { Expect::NoPanic }, ((&a).gcd(&b), (&a).gcd_ext(&b).0));
         }
     }
+    for (s1, e1, p1) in [(0i64, 0isize, 3usize), (5, -1, 1), (-123, -2, 3), (1, 40, 1), (7, -40, 0)] {
+        let f: DBig = FBig::from_repr(dashu_float::Repr::<10>::new(IBig::from(s1), e1), Context::new(p1));
+        case!(v, "RBig::simplest_from_float", format!("simplest_from_float({}e{} @p{})", s1, e1, p1), Expect::NoPanic, RBig::simplest_from_float(&f));
+    }
     floats::<mode::HalfAway, 10>(&mut v, "DBig");
     floats::<mode::Zero, 2>(&mut v, "FBig<Zero,2>");
     // rationals
@@ -310,6 +349,7 @@ fn registry() -> Vec<Case> {
         let t = |op: &str| format!("{}({}/{})", op, n, d);
         { let a = q.clone(); case!(v, "RBig::trunc/floor/ceil/round/fract", t("round ops"), Expect::NoPanic, (a.trunc(), a.floor(), a.ceil(), a.round(), a.fract(), a.clone().split_at_point())); }
         { let a = q.clone(); case!(v, "RBig::to_f32/to_f64/to_int", t("to_f64"), Expect::NoPanic, (a.to_f32(), a.to_f64(), a.to_f32_fast(), a.to_f64_fast(), a.to_int())); }
+        { let a = q.clone(); case!(v, "RBig accessors", t("accessors"), Expect::NoPanic, (a.denominator().is_one(), a.is_int(), a.is_one(), a.as_relaxed().is_one(), a.clone().relax().denominator().is_one(), a.clone().relax().canonicalize() == a, a.clone().relax().into_parts().1 == a.clone().into_parts().1)); }
         { let a = q.clone(); case!(v, "RBig::inv", t("inv"), if n == 0 { Expect::Must("zero-divisor") } else { Expect::NoPanic }, a.clone().inv()); }
         { let a = q.clone(); case!(v, "RBig::format/parse", t("format"), Expect::NoPanic, (RBig::from_str(&a.to_string()).map(|b| b == a), format!("{:?} {:>20}", a, a).len())); }
         for &p in &[0usize, 1, 5, 40] {
@@ -334,6 +374,15 @@ fn registry() -> Vec<Case> {
     case!(v, "Relaxed::from_parts(_, 0)", "from_parts(1, 0)".into(), Expect::Must("zero-divisor"), Relaxed::from_parts(IBig::ONE, UBig::ZERO));
     case!(v, "RBig::from_parts_signed(_, 0)", "from_parts_signed(1, 0)".into(), Expect::Must("zero-divisor"), RBig::from_parts_signed(IBig::ONE, IBig::ZERO));
     v
+}
+
+trait BorrowSelf {
+    fn borrow_(&self) -> &Self;
+}
+impl<T> BorrowSelf for T {
+    fn borrow_(&self) -> &Self {
+        self
+    }
 }
 
 trait BitLenShow {
@@ -386,6 +435,9 @@ fn floats<R: ModeTag, const B: dashu_int::Word>(v: &mut Vec<Case>, ty: &'static 
             fcase!("FBig::ulp", "ulp", if unl { Expect::Must("unlimited-precision") } else { Expect::NoPanic }, |a: &FBig<R, B>| a.ulp());
             fcase!("FBig::inv", "inv", if zero { Expect::Must("zero-divisor") } else { Expect::May }, |a: &FBig<R, B>| a.clone().inv());
             fcase!("FBig::to_decimal/to_binary", "to_decimal/to_binary", Expect::May, |a: &FBig<R, B>| (a.to_decimal(), a.to_binary()));
+            fcase!("FBig::with_base/with_base_and_precision", "with_base", Expect::May, |a: &FBig<R, B>| (a.clone().with_base::<7>(), a.clone().with_base_and_precision::<3>(5), a.clone().with_base_and_precision::<16>(0)));
+            fcase!("FBig accessors", "accessors", Expect::NoPanic, |a: &FBig<R, B>| (a.precision(), a.digits(), a.context().precision(), a.repr().digits(), a.repr().digits_ub() >= a.repr().digits_lb(), a.repr().is_int(), a.repr().is_one(), a.repr().is_finite(), a.clone().into_repr().into_parts(), a.clone().with_rounding::<mode::Up>().precision()));
+            fcase!("Context::rem/convert_int/max", "rem", if zero { Expect::Must("zero-divisor") } else { Expect::May }, |a: &FBig<R, B>| { let c = Context::max(a.context(), Context::<R>::new(3)); (c.rem(dashu_float::Repr::<B>::new(IBig::from(17), 0).clone().borrow_(), a.repr()), c.convert_int::<B>(IBig::from(12345))) });
             fcase!("RBig::try_from(FBig)/simplest_from_float", "to RBig", Expect::NoPanic, |a: &FBig<R, B>| (RBig::try_from(a.clone()).is_ok(), IBig::try_from(a.clone()).is_ok(), UBig::try_from(a.clone()).is_ok()));
             for &q in &[0usize, 1, 3, 30] {
                 let a = x.clone();
@@ -407,6 +459,40 @@ fn floats<R: ModeTag, const B: dashu_int::Word>(v: &mut Vec<Case>, ty: &'static 
             }
         }
     }
+    // huge exponents with short significands: every operation whose result is again a short float
+    // (or a primitive) must cost time polynomial in the *length* of the exponent, not in its value
+    for &(s, e) in &[(15i64, 100_000_000i64), (15, -100_000_000), (1, 1_000_000_000), (-7, 123_456_789), (-7, -1_234_567_890), (3, 40_000), (3, -40_000)] {
+        for &p in &[2usize, 20] {
+            if digits_b(&BigInt::from(s), B as u32) > p {
+                continue;
+            }
+            let x: FBig<R, B> = FBig::from_repr(dashu_float::Repr::<B>::new(IBig::from(s), e as isize), Context::<R>::new(p));
+            let t = |op: &str| format!("{} {}({}*{}^{} @p{})", ty, op, s, B, e, p);
+            macro_rules! hcase {
+                ($name:expr, $op:expr, $body:expr) => {{
+                    let a = x.clone();
+                    let f = $body;
+                    v.push(Case { name: $name, text: t($op), expect: Expect::May, run: Box::new(move || guard(|| show(f(&a)))) });
+                }};
+            }
+            hcase!("FBig(huge exponent)::to_f32/to_f64", "to_f32/to_f64", |a: &FBig<R, B>| (a.to_f32(), a.to_f64()));
+            hcase!("FBig(huge exponent)::to_decimal/to_binary", "to_decimal/to_binary", |a: &FBig<R, B>| (a.to_decimal(), a.to_binary()));
+            hcase!("FBig(huge exponent)::with_base_and_precision", "with_base_and_precision", |a: &FBig<R, B>| (a.clone().with_base_and_precision::<3>(5), a.clone().with_base_and_precision::<16>(4)));
+            hcase!("FBig(huge exponent)::format {:e}", "format {:e}", |a: &FBig<R, B>| format!("{:e} {:.3e} {:?}", a, a, a).len());
+            hcase!("FBig(huge exponent)::cmp", "cmp/eq", |a: &FBig<R, B>| (a > &FBig::<R, B>::ONE, a == &FBig::<R, B>::ONE, a.partial_cmp(&-a.clone()), a.cmp(&(a.clone() * FBig::<R, B>::from(2u8))), dashu_base::AbsOrd::abs_cmp(a, &FBig::<R, B>::ONE)));
+            hcase!("FBig(huge exponent)::add/sub small", "+1/-1", |a: &FBig<R, B>| (a + FBig::<R, B>::ONE, a - FBig::<R, B>::ONE, FBig::<R, B>::ONE - a, a + a, a - a));
+            hcase!("FBig(huge exponent)::mul/div/sqr/inv", "mul/div/sqr/inv", |a: &FBig<R, B>| (a * a, a / FBig::<R, B>::from(3u8), a.sqr(), a.clone().inv()));
+            hcase!("FBig(huge exponent)::sqrt/ln", "sqrt/ln", |a: &FBig<R, B>| { let b = if a.sign() == dashu_base::Sign::Negative { -a.clone() } else { a.clone() }; (b.sqrt(), b.ln()) });
+            hcase!("FBig(huge exponent)::ulp/with_precision/accessors", "ulp/with_precision", |a: &FBig<R, B>| (a.ulp(), a.clone().with_precision(1), a.clone().with_precision(40), a.digits(), a.repr().is_int(), dashu_base::EstimatedLog2::log2_bounds(a), dashu_base::Signed::sign(a)));
+            hcase!("FBig(huge exponent)::powi", "powi(2)/powi(-1)", |a: &FBig<R, B>| (a.powi(IBig::from(2)), a.powi(IBig::from(-1))));
+            hcase!("FBig(huge exponent)::to_f32/to_f64 via Repr", "Repr::to_f64", |a: &FBig<R, B>| (a.repr().to_f32(), a.repr().to_f64()));
+        }
+    }
+    v.push(Case { name: "FBig::from_parts_const/from_repr_const/from_str_native", text: format!("{} const constructors", ty), expect: Expect::NoPanic, run: Box::new(move || guard(|| {
+        #[allow(deprecated)]
+        let n = FBig::<R, B>::from_str_native("1.01").is_ok();
+        show((FBig::<R, B>::from_parts_const(dashu_base::Sign::Negative, 123, -1, Some(7)), FBig::<R, B>::from_repr_const(dashu_float::Repr::<B>::neg_one()).precision(), dashu_float::Repr::<B>::infinity().is_infinite(), dashu_float::Repr::<B>::neg_infinity().significand().is_zero(), n))
+    })) });
     for inf in [FBig::<R, B>::INFINITY, FBig::<R, B>::NEG_INFINITY] {
         let t = |op: &str| format!("{} {}({:?})", ty, op, inf.repr().exponent());
         macro_rules! icase {
@@ -438,7 +524,13 @@ fn methods_sweep(ctx: &mut Ctx, name: &str, cases: &[Case]) {
         let c = &cases[i as usize];
         rec.step();
         rec.nontrivial();
-        match ((c.run)(), c.expect) {
+        rec.label(c.name, &c.text);
+        let t0 = std::time::Instant::now();
+        let outcome = (c.run)();
+        if t0.elapsed().as_millis() > 1000 {
+            rec.hit(&format!("info:slow(>1s):{}", c.name));
+        }
+        match (outcome, c.expect) {
             (Ok(_), Expect::Must(why)) => rec.fail(format!("{}|{}|missing-panic|{}", P, c.name, why), c.text.clone(), "returned a value", format!("prompt panic ({})", why)),
             (Ok(_), _) => rec.hit("returns"),
             (Err(m), e) => {
@@ -524,6 +616,20 @@ pub fn run(ctx: &mut Ctx) {
     let groups: Vec<(&str, Kind)> = vec![("int", Kind::Int), ("ratio", Kind::Ratio), ("float", Kind::Float)];
     let cases = registry();
     ctx.bound("registry_cases", cases.len() as u64);
+    // coverage report: public inherent methods (rustdoc inventory) that no registry case calls
+    {
+        let src = include_str!("c16.rs");
+        let mut uncovered: Vec<&str> = vec![];
+        for a in c15::f10::API {
+            let m = a.split("::").nth(1).unwrap_or("");
+            let called = src.contains(&format!(".{}(", m)) || src.contains(&format!("::{}(", m)) || src.contains(&format!(".{}::<", m)) || src.contains(&format!("::{}::<", m));
+            if !called {
+                uncovered.push(a);
+            }
+        }
+        ctx.bound("public_inherent_methods(rustdoc inventory)", c15::f10::API.len() as u64);
+        ctx.bound("methods_without_a_registry_case", serde_json::json!(uncovered));
+    }
     let strings = parser_strings(ctx.pick(3, 4));
     ctx.bound("parser_strings", strings.len() as u64);
     let exe = std::env::current_exe().ok();
